@@ -11,7 +11,8 @@ package checks
 //      conflict, address not local, failing option. A census (descriptor number -> device/inode/type, read
 //      through a directory descriptor opened beforehand) taken before and after the failed call must be
 //      equal; after a successful call Close must bring the census back.
-//      The websocket handshake faults are explored by the same oracle in c18_handshake.go.
+//      Failed websocket handshakes (every non-upgrading response, blocking and async, server close after a
+//      cut) are a fourth family here, driven by c18_handshake.go's lock-stepped server with the same census.
 //  (b) close/...: sequences (depth <= 5) of close(o) — repeatable — and create(kind) over objects of every
 //      kind; after every action every object the scenario has not closed must still own the same kernel object
 //      under its descriptor number, and the census must equal the harness's own book-keeping.
@@ -541,18 +542,20 @@ func trace0(trace []string) string {
 
 func c13Body(x *engine.X) {
 	c13Init()
-	switch x.Pick(3, "family") {
+	switch x.Pick(4, "family") {
 	case 0:
 		c13Fail(x)
 	case 1:
 		c13Close(x)
-	default:
+	case 2:
 		c13GC(x)
+	default:
+		c18BodyOpt(x, true) // failed websocket handshakes, same census
 	}
 }
 
 func c13DFS(tier string) *engine.DFS {
-	return &engine.DFS{Name: "fds@" + tier, Body: c13Body, Procs: 16, WorkerProcs: 2, GCEvery: 10, ShardDepth: 3, MaxDeviations: 2, MaxPoints: 60, HangTimeout: 60 * time.Second}
+	return &engine.DFS{Name: "fds@" + tier, Body: c13Body, Procs: 16, WorkerProcs: 4, GCEvery: 10, ShardDepth: 3, MaxDeviations: 2, MaxPoints: 60, HangTimeout: 60 * time.Second}
 }
 
 func C13(tier string) *engine.Report {
